@@ -39,7 +39,7 @@ pub open spec fn vector_copied(to: Rc<Vector>, at: int, from: Rc<Vector>, start:
 }
 pub uninterp spec fn into_vec<T>(x: T) -> Seq<VCell>;
 #[verifier::external_body]
-pub proof fn axiom_into_vec(x: Vec<VCell>) ensures into_vec::<Vec<VCell>>(x) == x@ {}
+pub proof fn axiom_into_vec() ensures forall|x: Vec<VCell>| #[trigger] into_vec::<Vec<VCell>>(x) == x@ {}
 pub assume_specification<T: Into<Vec<VCell>>> [VCell::vector] (x: T) -> (r: VCell)
     ensures r matches VCell::Vector(v) && vector_view(*v) == into_vec(x);
 '''
@@ -87,6 +87,18 @@ UNITS = [
         'uses_types': ['VCell', 'Error', 'Heap', 'Vector', 'VectorView', 'RcAsRef', 'Number'],
         'prelude': VEC_PRELUDE,
         'fns': {
+            '::vector': {'props': T, 'requires': POP_REQ,
+                         'loops': {0: '''invariant outv@.len() == len, vm.stack_spec().wf(),'''}, 'loop_count': 1},
+            '::vector_length': {'props': T, 'requires': POP_REQ},
+            '::vector_copy': {'props': T, 'requires': POP_REQ,
+                'ensures': [
+                    # with a start index only (the optional end is excluded by the property): a fresh vector holding view[start..]
+                    (['C14'], '''r matches Ok(x) ==> (arg(*old(vm), 0) == VCell::ArgumentCount(2) ==> (cell_index(old(vm).heap_spec(), arg(*old(vm), 1)) matches Some(s)
+                        && (cell_vector(old(vm).heap_spec(), arg(*old(vm), 2)) matches Some(v) && s < vlen(v)
+                        && (x matches VCell::Vector(nv) && vector_view(*nv) == vector_view(*v).subrange(s as int, vlen(v))))))'''),
+                ],
+                'body_start': 'proof { axiom_into_vec(); }',
+            },
             '::vector_ref': {
                 'props': T, 'requires': POP_REQ,
                 'ensures': [
